@@ -24,3 +24,62 @@ PROPS["C01"] = {
                     "error positions inside a bracketed literal are only required to stay within that literal (latitude of the statement)",
                     "inputs longer than ~150 characters are rare; lengths near INT_MAX are out of reach"],
 }
+
+PROPS["C02"] = {
+    "level": "exploration",
+    "technique": "property-based testing (rapidcheck) + bounded exhaustive enumeration against an RFC 3986 Appendix B decomposition model with pointer-identity checks",
+    "level_text": ("Every accepted text is split by an independent Appendix-B model (plus host classification and IP value computation); each reported range must be "
+                   "the identical sub-range of the input (pointer + length), absent vs empty is distinguished, the path list/tail/absolutePath/owner are checked, for all "
+                   "entry points and both character types. Exploration with exhaustive short strings is the right level for a per-input structural claim."),
+    "level_note": "Trusted: M_split (self-tested on RFC examples), the grammar automaton used to select accepted texts; 'reserved' fields are not inspected.",
+    "enumerate": {"strings": "accepted members of all strings of length <= 5 (quick) / <= 6 (thorough) over 19 representatives",
+                  "literal_bodies": "accepted members of '//[' + bodies of length <= 7 (quick) / <= 9 (thorough) over {1 f 0 : . ] A}"},
+    "quick": {"cases": 70000},
+    "thorough": {"cases": 2500000, "ceiling_s": 3000},
+    "rule": ("accepted texts: 80% grammar-directed G_uri, 20% accepted survivors of G_noise, plus the accepted members of the exhaustive enumerations; "
+             "non-trivial = >= 3 components present, or an IP host, or >= 2 path segments; distinct by text"),
+    "assumptions": ["only texts accepted by the grammar oracle are judged (rejections are C01's)", "empty components may be any zero-length range"],
+}
+
+PROPS["C03"] = {
+    "level": "exploration",
+    "technique": "property-based testing (rapidcheck) with metamorphic tail/split-point relation, guard pages + ASan red zones, and allocation-fault enumeration on the parse entry point",
+    "level_text": ("For each generated text every split point is parsed (a) from a private exact-size heap copy, (b) in place inside the longer text, (c) followed by adversarial "
+                   "tails, (d) flush against PROT_NONE pages on either side with the input mapped read-only; outcomes (code, error offset, all components with offsets) must coincide. "
+                   "Failures (syntax, and allocation failure at every request position, fail-once and fail-from) must leave zero blocks and tolerate repeated free calls."),
+    "level_note": "Trusted: ASan red zones, the MMU, my recording memory manager. Reads inside a mapped page but outside the range are visible at one-character granularity only in the flush placements and heap copies.",
+    "quick": {"cases": 20000},
+    "thorough": {"cases": 400000, "ceiling_s": 3000},
+    "rule": ("G_noise texts over 0..255 (NUL included: explicit-range entry point); every prefix is a sub-case. Non-trivial = the text is rejected after its first character, "
+             "or a split point falls inside a multi-character token (pct triplet, IP literal, after ':' or '.'), or an allocation failure hit at k >= 2; distinct by text"),
+    "assumptions": ["texts longer than 300 characters are not generated"],
+}
+
+PROPS["C04"] = {
+    "level": "exploration",
+    "technique": "property-based testing (rapidcheck) + bounded exhaustive enumeration, parse/recompose round trip with a model-computed IPv6 exception",
+    "level_text": ("Round trip on every accepted text: uriToString(parse(s)) must equal s character for character (IPv6 literals: the eight-group lower-case text of the address "
+                   "the model computes from s); the text parses again to a uriEqualsUri-equal and component-equal URI; an owned copy recomposes identically after the source buffer "
+                   "is scribbled and freed. Both character types."),
+    "level_note": "Trusted: grammar automaton (selects accepted texts), IPv6 value model (checked against inet_pton in C01's self-test).",
+    "enumerate": {"strings": "accepted members of all strings of length <= 5 (quick) / <= 6 (thorough) over 15 representatives"},
+    "quick": {"cases": 90000},
+    "thorough": {"cases": 3000000, "ceiling_s": 3000},
+    "rule": ("60% G_uri, 30% pool of degenerate combinations named by the property (empty host/port/userinfo, leading empty segments, lone / ? #, IPv4, IP literals), "
+             "10% accepted G_noise; non-trivial = authority present or >= 2 components; distinct by text"),
+    "assumptions": ["texts >= 2^31 characters are out of reach"],
+}
+
+PROPS["C05"] = {
+    "level": "exploration",
+    "technique": "property-based testing (rapidcheck) with exhaustive capacity enumeration per URI and guard-page destination buffers",
+    "level_text": ("For URIs obtained by parsing, resolution and normalisation, the required-size query is compared with the actual text length, and uriToString is called with EVERY "
+                   "capacity from -2 to N+3 into a buffer of exactly that many characters placed flush against a PROT_NONE page: success/failure code, charsWritten, termination, "
+                   "empty-string-on-failure and absence of any write beyond the capacity are checked. The capacity dimension is exhaustive per URI; URIs are explored."),
+    "level_note": "Trusted: the MMU (guard page) and ASan. URIs whose text exceeds 256 characters get boundary capacities plus a stride instead of all capacities.",
+    "quick": {"cases": 60000},
+    "thorough": {"cases": 1200000, "ceiling_s": 3000},
+    "rule": ("URIs: 36% parsed G_uri, 36% results of uriAddBaseUriEx on correlated pairs, 28% normalised with a random or full mask; each with all capacities -2..N+3 and charsWritten "
+             "NULL in 1/3 of cases. Non-trivial = URI with >= 3 emitted pieces and at least one capacity strictly inside the text (0 < c <= N); distinct by case (each covers all its capacities)"),
+    "assumptions": ["int accumulation beyond INT_MAX would need a multi-gigabyte URI and is out of reach"],
+}
